@@ -162,12 +162,15 @@ SETTING_CLASSES = {
 
 
 @contextlib.contextmanager
-def settings_ctx(sd, tight=True, n=100):
+def settings_ctx(sd, tight=True, n=100, predict_only=False):
     """enter the settings named in dict `sd`; tight=True additionally forces the iterative algorithms to their
     exact regime (tolerances 1e-10, iteration caps >= n) as the properties prescribe."""
     with contextlib.ExitStack() as st:
         if tight:
-            st.enter_context(S.cg_tolerance(1e-10))
+            if not predict_only:
+                # (prediction checks tighten only the prediction-time tolerance: every solve a prediction needs has to run
+                # under eval_cg_tolerance, whatever the training-time cg_tolerance - default 1 - is)
+                st.enter_context(S.cg_tolerance(1e-10))
             st.enter_context(S.eval_cg_tolerance(1e-10))
             st.enter_context(S.max_cg_iterations(4000))
             st.enter_context(S.max_root_decomposition_size(max(100, 2 * n)))
